@@ -23,7 +23,7 @@ Theorem C04_restore_path_correct :
          exists p : list nat,
            restore_path G Ginv (List.firstn i lh) q = Ok p /\
            length p = i /\ run state (acts G) c p = Some q.
-Proof. exact restore_path_correct. Qed.
+Proof. exact @restore_path_correct. Qed.
 Print Assumptions C04_restore_path_correct.
 
 (* a returned path replays from the central state to the query and its length is the true distance *)
@@ -44,7 +44,7 @@ Theorem C04_find_path_to_sound :
          find_path_to G Ginv lh ns q = Ok (Some p) ->
          run state (acts G) c p = Some q /\
          dist_is state (acts G) (c :: nil) q (length p) /\ length p < length lh.
-Proof. exact find_path_to_sound. Qed.
+Proof. exact @find_path_to_sound. Qed.
 Print Assumptions C04_find_path_to_sound.
 
 (* 'no path' exactly when the state is in none of the layers 0..D; never an error on a well-formed ball *)
@@ -66,7 +66,7 @@ Theorem C04_find_path_to_complete :
          (find_path_to G Ginv lh ns q = Ok None <->
           (forall i : nat, i < length lh -> ~ List.In q (layer state st_eq_dec (acts G) (c :: nil) i))) /\
          (exists r : option (list nat), find_path_to G Ginv lh ns q = Ok r).
-Proof. exact find_path_to_complete. Qed.
+Proof. exact @find_path_to_complete. Qed.
 Print Assumptions C04_find_path_to_complete.
 
 (* no replayable path is shorter *)
@@ -86,7 +86,7 @@ Theorem C04_find_path_to_shortest :
          U q ->
          find_path_to G Ginv lh ns q = Ok (Some p) ->
          forall p' : list nat, run state (acts G) c p' = Some q -> length p <= length p'.
-Proof. exact find_path_to_shortest. Qed.
+Proof. exact @find_path_to_shortest. Qed.
 Print Assumptions C04_find_path_to_shortest.
 
 (* inverse-closed generators: the reverted path leads from the state to the central state, length = distance *)
@@ -111,7 +111,7 @@ Theorem C04_find_path_from_sound :
          U q ->
          find_path_from G Ginv (Some m) lh ns q = Ok (Some p) ->
          run state (acts G) q p = Some c /\ dist_is state (acts G) (c :: nil) q (length p).
-Proof. exact find_path_from_sound. Qed.
+Proof. exact @find_path_from_sound. Qed.
 Print Assumptions C04_find_path_from_sound.
 
 (* reverting a path A->B gives a valid path B->A of the same length *)
@@ -128,5 +128,5 @@ Theorem C04_revert_path_valid :
          run state (acts G) a p = Some b ->
          exists q : list nat,
            revert_path (Some m) p = Ok q /\ length q = length p /\ run state (acts G) b q = Some a.
-Proof. exact revert_path_valid. Qed.
+Proof. exact @revert_path_valid. Qed.
 Print Assumptions C04_revert_path_valid.
